@@ -397,6 +397,20 @@ PROPS = {
         real_vs_stub="real: Repository, packerManager, packerUploader, pack.Packer, MasterIndex, crypto, zstd, errgroup; simulated: object store, goroutine choice, crypto/rand",
         assumptions=SIM_ASSUME + ["the header-entry limit (about 409k entries) is checked on every pack but not reached by the generated workloads"],
     ),
+    "C45": dict(
+        pkg="internal/dump", test="TestVerifC45", level="exploration", quick_s=30, thorough_s=600,
+        text="generated trees of up to 25 nodes (files of 0-5 blobs with blobs repeated inside and across files, empty blobs, symlinks, fifos, "
+             "devices, sockets, nested directories, setuid and other permission bits) encoded as real tree blobs and served by a simulated loader "
+             "with 1-5 connections whose blob loads complete in the order the seeded scheduler decides; DumpTree writes tar or zip, the output is "
+             "parsed with the standard library: exactly one entry per file, directory and symlink in tree (pre-)order with the right type, "
+             "permission bits, link target and content, none for other node types; WriteNode of a file writes exactly its content; when a blob "
+             "load is made to fail the dump must return an error",
+        note="real dump, walker, bloblru, tree decoder; blob loader stubbed",
+        design_ref="3 / C45",
+        rule="one run = generated tree x format x connections x seeded schedule (x one failing blob); distinct = distinct event-log hash among runs with a real scheduling choice or fired fault",
+        real_vs_stub="real: dump.Dumper (tar, zip, writeNode), walker.Walk, bloblru.Cache, data tree decoder; stub: blob loader",
+        assumptions=SIM_ASSUME,
+    ),
     "C47": dict(
         pkg="internal/bloblru", test="TestVerifC47", level="exploration", quick_s=25, thorough_s=600,
         text="seeded search over schedules of concurrent GetOrCompute calls (every mutex acquisition and every computation is a scheduling "
